@@ -44,6 +44,8 @@ def snapshot(base):
             elif e.is_dir(follow_symlinks=False):
                 snap[r] = ["d", st.st_mode & 0o7777, 0, "", 0, st.st_ino]
                 stack.append(r)
+            elif not e.is_file(follow_symlinks=False):
+                snap[r] = ["s", st.st_mode & 0o7777, 0, "special", 0, st.st_ino]  # FIFO etc.: never opened by the harness
             else:
                 try:
                     with real_open(e.path, "rb") as f:
@@ -82,6 +84,10 @@ def materialise(world, root):
         p = os.path.join(T, rel)
         os.makedirs(os.path.dirname(p), exist_ok=True)
         _o["symlink"](_subst(target, root), p)
+    for rel in world.get("fifos", []):
+        p = os.path.join(T, rel)
+        os.makedirs(os.path.dirname(p), exist_ok=True)
+        os.mkfifo(p)
     for rel, mode in sorted(world.get("modes", {}).items()):
         _o["chmod"](os.path.join(T, rel), mode)
     for rel in world.get("extra_dirs_S", []):
